@@ -186,7 +186,10 @@ def check_try_from(ctx, F, hty):
     hs = F.size_of(hty)
     slice_arg = ("arg", 1, "&[u8]")
     want = [
-        ("ShorterThanHeader", lambda f: G.entails([f], ("cmp", "Lt", ("len", slice_arg), ("c", hs))) is not None,
+        # the guard must be *equivalent* to `len < size_of::<H>()`: a weaker test (say `len < 8` for the 16-byte header) is entailed
+        # one way only and would let a slice shorter than the header through (seed C10-7b)
+        ("ShorterThanHeader", lambda f: f[0] == "cmp" and G.entails([f], ("cmp", "Lt", ("len", slice_arg), ("c", hs))) is not None
+         and G.entails([("cmp", "Lt", ("len", slice_arg), ("c", hs))], f) is not None,
          "len < size_of::<H>() (%d)" % hs),
         ("WrongAlignment", lambda f: is_misaligned_test(f, ("asptr", slice_arg)),
          "as_ptr().align_offset(8) != 0"),
